@@ -1284,11 +1284,65 @@ fn sanity(report: &mut Report) -> bool {
     ok
 }
 
+/// `sizeof` in the positions that demand a constant: where the evaluator folds it, the value is the size of the type; and a
+/// qualifier on the operand type (or naming a constant of that type instead of the type) changes neither the value nor whether
+/// the expression counts as constant - the evaluator decides by type, and the type with its qualifiers removed is the same.
+fn sizeof_table(report: &mut Report) {
+    const PRE: &str = "enum SE { SE_A, SE_B };\nstatic const int SK_int = -7;\nstatic const uint SK_uint = 7u;\nstatic const float SK_float = 0.5f;\nstatic const half SK_half = 0.5h;\nstatic const double SK_double = 0.5L;\nstatic const float3 SK_float3 = float3(1.0f, 2.0f, 3.0f);\nstatic const SE SK_SE = SE_B;\n";
+    const TYPES: &[(&str, u64)] = &[("uint", 4), ("int", 4), ("float", 4), ("half", 2), ("double", 8), ("float3", 12), ("SE", 4)];
+    let outcome = |operand: &str, position: &str, size: u64| -> (String, Option<u64>) {
+        let text = match position {
+            "array" => format!("{}float a[sizeof({})];\n", PRE, operand),
+            "array-through-constant" => format!("{}static const uint n = sizeof({});\nfloat a[n + 1u - 1u];\n", PRE, operand),
+            "enum" => format!("{}enum EE {{ EA = sizeof({}) }};\n", PRE, operand),
+            _ => format!("{}void f(uint s) {{ switch (s) {{ case sizeof({}): break; default: break; }} }}\nfloat a[{}];\n", PRE, operand, size),
+        };
+        match observe(&text, if position == "enum" { Pos::Enum } else { Pos::Array }) {
+            Seen::Integer(n) => (if position == "case" { "accepted".to_string() } else { format!("value {}", n) }, if position == "case" { None } else { Some(n) }),
+            Seen::EnumValues(a, _) => (format!("value {}", a.show()), a.as_integer().map(|v| v as u64)),
+            Seen::Diag(d) => (format!("diagnostic: {}", d.lines().next().unwrap_or("").split(": error: ").last().unwrap_or("")), None),
+            Seen::Panic(c) => (format!("panic: {}", c.message), None),
+            _ => ("lost".to_string(), None),
+        }
+    };
+    for (ty, size) in TYPES {
+        for position in ["array", "array-through-constant", "enum", "case"] {
+            let base = outcome(ty, position, *size);
+            report.evaluations += 1;
+            if let Some(n) = base.1 {
+                if n != *size {
+                    report.violation(
+                        &format!("value:sizeof:{}", position),
+                        &format!("sizeof({}) in {} position: reference {} - observed {}", ty, position, size, base.0),
+                        Json::obj().set("origin", "sizeof-table").set("operand", *ty).set("position", position).set("reference", format!("{}", size)).set("observed", base.0.as_str()),
+                    );
+                    continue;
+                }
+            }
+            for variant in [format!("const {}", ty), format!("volatile {}", ty), format!("SK_{}", ty)] {
+                let with = outcome(&variant, position, *size);
+                report.evaluations += 1;
+                if with.0 == base.0 {
+                    report.count(&format!("sizeof-table:same-outcome:{}", if base.1.is_some() || base.0 == "accepted" { "folded" } else { "not-folded" }));
+                    report.distinct(hash_str(&format!("{}|{}", variant, position)));
+                } else {
+                    report.violation(
+                        &format!("value:sizeof:{}:{}", position, if variant.starts_with("SK_") { "named-constant-of-the-type" } else { "qualified-type" }),
+                        &format!("sizeof({}) in {} position gives `{}`, sizeof({}) gives `{}`", ty, position, base.0, variant, with.0),
+                        Json::obj().set("origin", "sizeof-table").set("operand", variant.as_str()).set("position", position).set("reference", base.0.as_str()).set("observed", with.0.as_str()),
+                    );
+                }
+            }
+        }
+    }
+}
+
 fn run(ctx: &Ctx) -> Report {
     let mut total = Report::new();
     if !sanity(&mut total) {
         return total;
     }
+    sizeof_table(&mut total);
     let sup = learn_support(ctx, &mut total);
     let all = atoms(ctx.tier == Tier::Thorough);
     let everything = atoms(true);
